@@ -120,6 +120,7 @@ impl HipEstimator {
     uninterp spec fn log(&self) -> Seq<(u8, u8)>;
     #[verifier::external_body]
     fn new(lg_config_k: u8) -> (r: Self)
+      requires lg_config_k < 32   // `1 << lg_config_k` is an i32 shift (unit hll_api)
       ensures r.log() == Seq::<(u8, u8)>::empty()
     { unimplemented!() }
     #[verifier::external_body]
@@ -176,6 +177,9 @@ impl Array4 {
     spec fn k(&self) -> int { pow2(self.lg_config_k as nat) as int }
     spec fn auxv(&self) -> IMap<u32, u8> { if self.aux_map is Some { self.aux_map->0.view() } else { IMap::empty() } }
     spec fn reg(&self, i: int) -> int { preg(self.cur_min, self.bytes@, self.auxv(), i) }
+    // refinement of the abstract register model of unit hll_sketch (`lg`, `regs`, `wf2` of Array4 are uninterpreted there)
+    spec fn lg(&self) -> u8 { self.lg_config_k }
+    spec fn regs(&self) -> Seq<u8> { Seq::new(self.k() as nat, |i: int| self.reg(i) as u8) }
     spec fn wf(&self) -> bool {
         &&& pwf(self.lg_config_k, self.cur_min, self.bytes@, self.auxv())
         &&& (self.aux_map matches Some(m) ==> m.awf() && m.lgk() == self.lg_config_k)
